@@ -81,7 +81,8 @@ def trace_leg(rep, tier):
                       {"rejected_at": idx, "event": e, "run": evs[start:idx + 2], "tlc_tail": r.out[-600:]})
     rep.sample({"trace_events": evs[:6]})
     # binding self-test: a corrupted drop counter must be rejected
-    k = next(i for i, e in enumerate(evs) if e["op"] in ("DropContainer", "RustDrop", "Destroy"))
+    # (the first drop event that carries any counter: a history may start with a container that holds nothing)
+    k = next(i for i, e in enumerate(evs) if e["op"] in ("DropContainer", "RustDrop", "Destroy") and e.get("drops"))
     p0 = sorted(evs[k]["drops"])[0]
     evs[k]["drops"][p0] += 1
     bad = os.path.join(rep.wd, "trace_corrupt.ndjson")
